@@ -1,7 +1,7 @@
 from ast import Attribute, Subscript, Load, NodeVisitor, Name as AstName
 
 from .compat import PY2
-from .scope import FuncScope, Flow, SourceScope, ClassScope
+from .scope import FuncScope, Flow, SourceScope, ClassScope, get_first_body_node_loc
 from .name import AssignedName, ImportedName
 from .util import (np, get_expr_end, get_indexes_for_target, visitor, get_any_marked_name)
 
@@ -177,6 +177,8 @@ class extract_visitor(NodeVisitor):
         cur = self.flow
 
         body_start = self.make_flow('for', [cur])
+        # a decorated def / class that opens the body starts at its decorator
+        body_loc = get_first_body_node_loc(node.body) or np(node.body[0])
         for nn, _idx in get_indexes_for_target(node.target, [], []):
             if isinstance(nn, Attribute):
                 self.top.add_attr_assign(body_start.scope, nn, None)  # type: ignore[arg-type]
@@ -184,7 +186,7 @@ class extract_visitor(NodeVisitor):
                 continue
             else:
                 name = nn  # type: ast.Name # type: ignore[assignment]
-                body_start.add_name(AssignedName(name.id, np(node.body[0]), np(name), node.iter))
+                body_start.add_name(AssignedName(name.id, body_loc, np(name), node.iter))
         # names read inside attribute / subscript targets
         self.visit_in_flow(node.target, body_start)
         body = self.visit_in_flow(node.body, body_start)
@@ -266,9 +268,9 @@ class extract_visitor(NodeVisitor):
             fh = self.make_flow('except', raised)
             if h.name:
                 if PY2:
-                    fh.add_name(AssignedName(h.name.id, np(h.body[0]), np(h), h.type))
+                    fh.add_name(AssignedName(h.name.id, get_first_body_node_loc(h.body) or np(h.body[0]), np(h), h.type))
                 else:
-                    fh.add_name(AssignedName(h.name, np(h.body[0]), np(h), h.type))  # type: ignore[arg-type]
+                    fh.add_name(AssignedName(h.name, get_first_body_node_loc(h.body) or np(h.body[0]), np(h), h.type))  # type: ignore[arg-type]
             if h.type:
                 # the exception class is evaluated when the exception arrives: it sees what the try body bound
                 fh = self.visit_in_flow(h.type, fh)
